@@ -132,9 +132,10 @@ class Gen:
 
     def shamt(self, fs):
         """shift amounts: a small non-negative constant or an unsigned field (a negative amount in a
-        non-random sub-expression is known finding F33)"""
+        non-random sub-expression is known finding F33, and so is an amount so large that Python cannot hold the shifted
+        integer: a wide field is a shift amount only while it cannot be evaluated eagerly)"""
         r = self.r
-        us = [i for i, f in enumerate(fs) if not f["s"] and not f["enums"]]
+        us = [i for i, f in enumerate(fs) if not f["s"] and not f["enums"] and (f["w"] <= 6 or (f["rand"] and f["w"] <= 20))]
         if us and r.random() < 0.4:
             return F(r.choice(us))
         return I(r.choice([0, 1, 1, 2, 3, 4, 7, 9, 33]))
@@ -296,7 +297,7 @@ class Gen:
 
 # ----------------------------------------------------------------------------- execution / comparison
 
-OPTS = {"bounds": False}
+OPTS = {"bounds": False, "range_oracle": False}
 
 def expand_dyn(x, dyn):
     """what a reference to a dynamic block denotes for the model: the class's block of that name.
@@ -605,7 +606,9 @@ def compare_call(S, scn, ci, c, m):
                    "every random field inside its declared type / enumerators")
             if a["specSat"] is False:
                 of("returned-but-unsatisfiable", {"randset": a["fields"]}, "SolveFailure (no assignment satisfies the hard constraints)")
-            if OPTS["bounds"] and a.get("starved"):
+            if OPTS["bounds"] and a.get("starved") and not OPTS["range_oracle"]:
+                st["range_loss_left_to_C14"] = st.get("range_loss_left_to_C14", 0) + 1
+            if OPTS["range_oracle"] and a.get("starved"):
                 # where a non-random operand evaluates differently on Python integers (bound inference) and as a bit-vector
                 # (solver) the loss of values is known finding F21; anywhere else it is a new violation
                 of("F21:python-int-bounds-vs-solver-semantics" if a.get("pyDiverges") else "feasible-value-outside-inferred-range", {"starved": a["starved"], "bounds": {n: c["bounds"].get(n) for n in a["fields"]}},
@@ -850,6 +853,7 @@ def replay_file(ck, prop, path):
 
 def standard_main(prop, modules, theorems, profile, n_quick, n_thorough, assumptions, rule, extra=None, argv=None, bounds=False):
     OPTS["bounds"] = bounds
+    OPTS["range_oracle"] = bounds and prop == "C14"       # soundness of the inferred ranges is C14's statement
     tier, seed, replay = common.parse_args(argv if argv is not None else sys.argv[1:])
     ck = common.Check(prop, tier, seed, modules)
     obligations = common.obligations_for(modules)
